@@ -183,7 +183,7 @@ def run_case(ctx, kind_, idx):
             if rng.integers(0, 4) == 0:
                 # the caller post-processes a first result in place and asks the same object again: what comes back
                 # must be a recreation of the averages, not the caller's modified numbers
-                obj = R.cls(strat)(x, y_arg, n, **kw)
+                obj = R.build(rng, strat, x, y_arg, n, kw)
                 xs0, ys0 = obj.rfa()
                 if isinstance(ys0, np.ndarray) and isinstance(xs0, np.ndarray):
                     ys0 *= -3.0
